@@ -330,10 +330,22 @@ fn op_frontend(req: &J) -> J {
     out
 }
 
+/// The same steps as the CLI's `format` command: drop a reftest
+/// footer (which also normalises line endings), then format.
+fn cli_format(raw_src: &str, path: &std::path::Path) -> String {
+    let mut src = crate::remove_testing_footer(raw_src);
+    if src.len() != raw_src.len() {
+        while src.ends_with("\n\n") {
+            src.pop();
+        }
+    }
+    crate::format::format(&src, path)
+}
+
 fn op_format(req: &J) -> J {
     let src = req["src"].as_str().unwrap_or("").to_owned();
     let path = hook_path(req);
-    match catch(|| crate::format::format(&src, &path)) {
+    match catch(|| cli_format(&src, &path)) {
         Ok(s) => json!({"formatted": s}),
         Err(p) => json!({"panic": p}),
     }
